@@ -171,7 +171,7 @@ fn scripted_matrix(rep: &Arc<Reporter>, args: &Args, ctx: &Arc<Ctx>) {
                     if !args.thorough() && *method != "CONNECT" && *method != "GET" && !["connected", "refused", "policy loopback"].contains(&o.name) { continue; }
                     n += 1;
                     let oc = o.outcome.clone();
-                    let fwd = Arc::new(RecFwd { log: Default::default(), decide: Box::new(move |_| oc.clone()), udp: MuxChoice::Real, icmp: MuxChoice::Real, check_auth_err: None, received: Default::default() });
+                    let fwd = Arc::new(RecFwd { log: Default::default(), decide: Box::new(move |_| oc.clone()), udp: MuxChoice::Real, icmp: MuxChoice::Real, check_auth_err: None, received: Default::default(), abandoned: Default::default() });
                     let mut req = Req::new(method, &target_for(method, authority));
                     if *method == "CONNECT" { req.end_stream = false; }
                     if *method == "POST" || *method == "PUT" { req = req.header("content-length", b"0"); }
